@@ -514,8 +514,7 @@ def topologicalClosureAssign (x : FPoly) : FPoly :=
           -- `add_corresponding_points()` appends; not pending-capable: `unset_pending_rows(); set_sorted(false)`
           q
 
-/-- `generalized_affine_image(var, relsym, expr, den)` (:3123), `relsym ∈ {≤, =, ≥}` and the strict
-    symbols on an image that is empty -/
+/-- `generalized_affine_image(var, relsym, expr, den)` (:3123), every relation symbol -/
 def generalizedAffineImage (x : FPoly) (v : Nat) (r : Rel) (e : LinExpr) (den : Int) : FPoly :=
   let x1 := x.affineImage v e den
   match r with
@@ -530,6 +529,23 @@ def generalizedAffineImage (x : FPoly) (v : Nat) (r : Rel) (e : LinExpr) (den : 
         let ray := rayRow x2.dim v (if r == .le then -1 else 1)
         -- `add_generator(ray)`: generators are up to date and no constraints are pending after is_empty()
         x2.addGenerator .ray ray
+      | .lt | .gt =>
+        -- :3175-3224 (NNC only): the ray, `minimize()`, every point split into its closure point and the
+        -- point displaced by `±var` (appended, from the last row to the first)
+        let sgn : Int := if r == .gt then 1 else -1
+        let x3 := (x2.addGenerator .ray (rayRow x2.dim v sgn)).minimize.2
+        let rows := x3.p.gs.rows
+        let step := fun (acc : List Row × List Row) (i : Nat) =>
+          let g := acc.1.getD i default
+          if Row.isPointG g then
+            let old : Row := ({ g with eps := 0 } : Row).normalize
+            let nw : Row := ({ g with cf := g.cf.set v (g.cf.getD v 0 + sgn) } : Row).normalize
+            (acc.1.set i old, acc.2 ++ [nw])
+          else acc
+        let (rows', added) := (List.range rows.length).reverse.foldl step (rows, [])
+        let all := rows' ++ added
+        { x3 with p := { x3.p with gs := ⟨all, all.length, false⟩,
+                                   st := { x3.p.st.clearCUp with gMin := false, satC := false, satG := false } } }
       | _ => x2
 
 /-- `concatenate_assign(y)` (Polyhedron_chdims.cc:184) -/
@@ -605,6 +621,39 @@ def mapSpaceDimensions (x : FPoly) (f : List (Option Nat)) : FPoly :=
     if x.st.empty then q
     else { q with p := { q.p with cs := if x.st.cUp then { q.p.cs with sorted := false } else q.p.cs,
                                   gs := if x.st.gUp then { q.p.gs with sorted := false } else q.p.gs } }
+
+/-- the constraint `a ≤ b` / `a == b` of two linear expressions over `n` variables as the operators
+    of Constraint_inlines.hh build it: `b - a ≥ 0` (`== 0`), strongly normalised; closed topology (ε = 0) -/
+def conOfExprs (n : Nat) (eq : Bool) (a b : LinExpr) : Row :=
+  let ca := padTo n a.coeffs
+  let cb := padTo n b.coeffs
+  (⟨eq, b.k - a.k, List.zipWith (fun x y => y - x) ca cb, 0⟩ : Row).strongNormalize
+
+/-- `den * Variable(v)` over `n` variables -/
+def scaledVar (n v : Nat) (den : Int) : LinExpr := ⟨(List.replicate n 0).set v den, 0⟩
+
+/-- `bounded_affine_image(var, lb_expr, ub_expr, den)` (:2955) -/
+def boundedAffineImage (x : FPoly) (v : Nat) (lb ub : LinExpr) (den : Int) : FPoly :=
+  if x.st.empty then x
+  else
+    let n := x.dim
+    if lb.coeffs.getD v 0 == 0 then
+      let x1 := x.generalizedAffineImage v .le ub den
+      if x1.st.empty then x1
+      else if den > 0 then x1.refineNoCheck (conOfExprs n false lb (scaledVar n v den))
+      else x1.refineNoCheck (conOfExprs n false (scaledVar n v den) lb)
+    else if ub.coeffs.getD v 0 == 0 then
+      let x1 := x.generalizedAffineImage v .ge lb den
+      if x1.st.empty then x1
+      else if den > 0 then x1.refineNoCheck (conOfExprs n false (scaledVar n v den) ub)
+      else x1.refineNoCheck (conOfExprs n false ub (scaledVar n v den))
+    else
+      let x1 := x.addSpaceDimensionsAndEmbed 1
+      let x2 := x1.refineNoCheck (conOfExprs (n + 1) true (scaledVar (n + 1) n den) ⟨padTo (n + 1) ub.coeffs, ub.k⟩)
+      let x3 := x2.generalizedAffineImage v .ge ⟨padTo (n + 1) lb.coeffs, lb.k⟩ den
+      let x4 := if x3.st.empty then x3
+                else x3.refineNoCheck (conOfExprs (n + 1) false (scaledVar (n + 1) v 1) (scaledVar (n + 1) n 1))
+      x4.removeHigherSpaceDimensions n
 
 end FPoly
 end PPLV.PolyFull
